@@ -225,4 +225,130 @@ theorem C08_retransmit_not_forwarded_op_quiet (s : Server) (conn i : Nat) (dup r
 theorem C08_retransmit_render_v3 (id : Nat) : (WPk.ack 4 5 id 0x91).render = (WPk.ack 4 5 id 0).render := by
   simp [WPk.render, renderAck]
 
+/-! ## Forwarded exactly once, over histories
+
+A sequential history `pre ++ [PUBLISH q2 k] ++ mid ++ [PUBREL k]`: the PUBLISH is accepted in the state `s0` after `pre`;
+no op of `mid` is in `InEnds` (`InNoEnds` — retransmissions of the PUBLISH are NOT in `InEnds`, so `mid` may contain any
+number of them, on the original connection or, after a reconnect with session present, on a new one).  "Forwarded
+exactly once" is stated as the facts: (1) the first PUBLISH is answered PUBREC 0x00 and routed by ONE call of
+`publishToSubscribers`; (2) the exchange is open in every state of `mid`; (3) every retransmission in `mid` (a QoS 2
+PUBLISH with identifier `k` on a connection of the session that passes `RetransmitGates`) writes to its own connection
+only — the PUBREC 0x91 and releases of the publisher's own deferred messages — and leaves the retained store, the index
+and every other object untouched: it calls neither `publishToSubscribers` nor `retainMsg`; (4) so does the PUBREL, which
+is answered PUBCOMP and closes the exchange (the next PUBLISH with identifier `k` is a new message).
+A copy of the message for the PUBLISHER itself (it subscribes to its own topic) that flow control deferred is a record the
+first op filed; when a later op of the publisher releases it, that is the one copy of (1) being written, not a second
+forwarding. -/
+
+/-- **C08, forwarded exactly once** — from any well-formed state `s0` satisfying the index/session invariant. -/
+theorem C08_forwarded_exactly_once (s0 : Server) (hw : WF s0) (hsync : SyncInv s0) (mid : List Op)
+    (conn i k : Nat) (dup retain : Bool) (topic payload : Str) (me : Nat) (cid : Str)
+    (hf : OpsFresh s0 (.recv conn (.publish 2 dup retain k topic payload me none) :: mid))
+    (hok : OpsSchedOK s0 (.recv conn (.publish 2 dup retain k topic payload me none) :: mid))
+    (hc : assocGet s0.connOf conn = some i) (hreg : assocGet s0.clients cid = some i)
+    (hacc : AcceptedQ2 s0 i k topic)
+    (hmid : InNoEnds (step s0 (.recv conn (.publish 2 dup retain k topic payload me none))).1 cid k mid) :
+    -- (1) the first PUBLISH: PUBREC 0x00 first, ONE fan-out, the release tail
+    (step s0 (.recv conn (.publish 2 dup retain k topic payload me none))).2 =
+      [Out.wrote (getObj s0 i).conn (.ack (getObj s0 i).ver 5 k 0)] ++ (q2Routed s0 i dup retain k topic payload me).2 ++
+       (nextImmediate (q2Routed s0 i dup retain k topic payload me).1 i).2 ++
+       (nextImmediate (nextImmediate (q2Routed s0 i dup retain k topic payload me).1 i).1 i).2 ∧
+    -- (2) the exchange is open in every state of `mid`
+    (∀ a b, mid = a ++ b →
+      InOpen (run (step s0 (.recv conn (.publish 2 dup retain k topic payload me none))).1 a) cid k) ∧
+    -- (3) no retransmission in `mid` is forwarded
+    (∀ a b conn' i' d r t p me', mid = a ++ [.recv conn' (.publish 2 d r k t p me' none)] ++ b →
+      assocGet (run (step s0 (.recv conn (.publish 2 dup retain k topic payload me none))).1 a).connOf conn' = some i' →
+      assocGet (run (step s0 (.recv conn (.publish 2 dup retain k topic payload me none))).1 a).clients cid = some i' →
+      RetransmitGates (run (step s0 (.recv conn (.publish 2 dup retain k topic payload me none))).1 a) i' k t →
+      (∀ x ∈ (step (run (step s0 (.recv conn (.publish 2 dup retain k topic payload me none))).1 a)
+            (.recv conn' (.publish 2 d r k t p me' none))).2,
+        x = Out.wrote (getObj (run (step s0 (.recv conn (.publish 2 dup retain k topic payload me none))).1 a) i').conn
+              (.ack (getObj (run (step s0 (.recv conn (.publish 2 dup retain k topic payload me none))).1 a) i').ver 5 k 0x91) ∨
+        ∃ m ∈ (getObj (run (step s0 (.recv conn (.publish 2 dup retain k topic payload me none))).1 a) i').inflight,
+          m.expiry < 0 ∧
+          x ∈ writeMsg (run (step s0 (.recv conn (.publish 2 dup retain k topic payload me none))).1 a) i' m) ∧
+      (step (run (step s0 (.recv conn (.publish 2 dup retain k topic payload me none))).1 a)
+          (.recv conn' (.publish 2 d r k t p me' none))).1.rmsgs =
+        (run (step s0 (.recv conn (.publish 2 dup retain k topic payload me none))).1 a).rmsgs ∧
+      (step (run (step s0 (.recv conn (.publish 2 dup retain k topic payload me none))).1 a)
+          (.recv conn' (.publish 2 d r k t p me' none))).1.topics =
+        (run (step s0 (.recv conn (.publish 2 dup retain k topic payload me none))).1 a).topics ∧
+      (∀ x, x ≠ i' →
+        getObj (step (run (step s0 (.recv conn (.publish 2 dup retain k topic payload me none))).1 a)
+          (.recv conn' (.publish 2 d r k t p me' none))).1 x =
+        getObj (run (step s0 (.recv conn (.publish 2 dup retain k topic payload me none))).1 a) x)) ∧
+    -- (4) the PUBREL after `mid`: PUBCOMP to the publisher, the exchange closed, nothing routed
+    (∀ conn' i',
+      assocGet (run (step s0 (.recv conn (.publish 2 dup retain k topic payload me none))).1 mid).connOf conn' = some i' →
+      assocGet (run (step s0 (.recv conn (.publish 2 dup retain k topic payload me none))).1 mid).clients cid = some i' →
+      (getObj (run (step s0 (.recv conn (.publish 2 dup retain k topic payload me none))).1 mid) i').isOpen = true →
+      (getObj (run (step s0 (.recv conn (.publish 2 dup retain k topic payload me none))).1 mid) i').peerGone = false →
+      (getObj (run (step s0 (.recv conn (.publish 2 dup retain k topic payload me none))).1 mid) i').inline = false →
+      ¬ InOpen (step (run (step s0 (.recv conn (.publish 2 dup retain k topic payload me none))).1 mid)
+          (.recv conn' (.pubrel k 0))).1 cid k ∧
+      (step (run (step s0 (.recv conn (.publish 2 dup retain k topic payload me none))).1 mid)
+          (.recv conn' (.pubrel k 0))).1.rmsgs =
+        (run (step s0 (.recv conn (.publish 2 dup retain k topic payload me none))).1 mid).rmsgs ∧
+      (step (run (step s0 (.recv conn (.publish 2 dup retain k topic payload me none))).1 mid)
+          (.recv conn' (.pubrel k 0))).1.topics =
+        (run (step s0 (.recv conn (.publish 2 dup retain k topic payload me none))).1 mid).topics ∧
+      (∀ x, x ≠ i' →
+        getObj (step (run (step s0 (.recv conn (.publish 2 dup retain k topic payload me none))).1 mid)
+          (.recv conn' (.pubrel k 0))).1 x =
+        getObj (run (step s0 (.recv conn (.publish 2 dup retain k topic payload me none))).1 mid) x) ∧
+      (∀ x ∈ (step (run (step s0 (.recv conn (.publish 2 dup retain k topic payload me none))).1 mid)
+          (.recv conn' (.pubrel k 0))).2,
+        ∃ pk, x = Out.wrote
+          (getObj (run (step s0 (.recv conn (.publish 2 dup retain k topic payload me none))).1 mid) i').conn pk)) := by
+  generalize hop : Op.recv conn (.publish 2 dup retain k topic payload me none) = op at hf hok hmid ⊢
+  have e1 := congrArg Prod.snd (C08_accepted_qos2_shape s0 conn i dup retain k topic payload me hc hacc)
+  rw [hop] at e1
+  have hopen1 : InOpen (step s0 op).1 cid k := by
+    rw [← hop]
+    exact (C08_accepted_qos2_opens s0 conn i dup retain k topic payload me cid hw hc hacc hreg).2
+  generalize hs1 : (step s0 op).1 = s1 at hf hok hmid hopen1 ⊢
+  have w1 : WF s1 := hs1 ▸ WF_step s0 op hw hf.1
+  have y1 : SyncInv s1 := hs1 ▸ SyncInv_step s0 op hsync hw hf.1 hok.1
+  have f1 : OpsFresh s1 mid := hs1 ▸ hf.2
+  have o1 : OpsSchedOK s1 mid := hs1 ▸ hok.2
+  have open_at : ∀ a b, mid = a ++ b → InOpen (run s1 a) cid k := by
+    intro a b hab
+    rw [hab] at f1 o1 hmid
+    exact C08_inbound_record_survives_run s1 a cid k w1 y1 (q08_OpsFresh_app f1).1 (q08_OpsSchedOK_app o1).1 hopen1
+      (InNoEnds_app hmid).1
+  refine ⟨e1, open_at, ?_, ?_⟩
+  · intro a b conn' i' d r t p me' hab hc' hreg' hg
+    have ho := open_at a _ (by rw [hab, List.append_assoc])
+    obtain ⟨_, _, h3, h4, h5, h6⟩ := C08_retransmit_not_forwarded_op (run s1 a) conn' i' d r k t p me' cid hc' hreg' ho hg
+    exact ⟨h3, h4, h5, h6⟩
+  · intro conn' i' hc' hreg' hopn hpeer hin
+    have ho := open_at mid [] (List.append_nil mid).symm
+    exact step_recv_pubrel_closes (run s1 mid) conn' i' k cid hc' hreg' ho hopn hpeer hin
+
+/-- **C08, forwarded exactly once, histories from the initial state** `pre ++ [PUBLISH q2 k] ++ mid` (++ `[PUBREL k]`:
+    clause (4)): the conclusions of `C08_forwarded_exactly_once` for `s0 = run (init caps) pre`. -/
+theorem C08_forwarded_exactly_once_seq (caps : Caps) (pre mid : List Op)
+    (conn i k : Nat) (dup retain : Bool) (topic payload : Str) (me : Nat) (cid : Str)
+    (hf : OpsFresh (init caps) (pre ++ (.recv conn (.publish 2 dup retain k topic payload me none) :: mid)))
+    (hok : OpsSchedOK (init caps) (pre ++ (.recv conn (.publish 2 dup retain k topic payload me none) :: mid)))
+    (hc : assocGet (run (init caps) pre).connOf conn = some i)
+    (hreg : assocGet (run (init caps) pre).clients cid = some i)
+    (hacc : AcceptedQ2 (run (init caps) pre) i k topic)
+    (hmid : InNoEnds (step (run (init caps) pre) (.recv conn (.publish 2 dup retain k topic payload me none))).1 cid k mid) :
+    (step (run (init caps) pre) (.recv conn (.publish 2 dup retain k topic payload me none))).2 =
+      [Out.wrote (getObj (run (init caps) pre) i).conn (.ack (getObj (run (init caps) pre) i).ver 5 k 0)] ++
+       (q2Routed (run (init caps) pre) i dup retain k topic payload me).2 ++
+       (nextImmediate (q2Routed (run (init caps) pre) i dup retain k topic payload me).1 i).2 ++
+       (nextImmediate (nextImmediate (q2Routed (run (init caps) pre) i dup retain k topic payload me).1 i).1 i).2 ∧
+    (∀ a b, mid = a ++ b →
+      InOpen (run (init caps) (pre ++ (.recv conn (.publish 2 dup retain k topic payload me none) :: a))) cid k) := by
+  obtain ⟨f1, f2⟩ := q08_OpsFresh_app hf
+  obtain ⟨o1, o2⟩ := q08_OpsSchedOK_app hok
+  obtain ⟨h1, h2, _, _⟩ := C08_forwarded_exactly_once (run (init caps) pre) (WF_run caps pre f1) (SyncInv_run caps pre f1 o1)
+    mid conn i k dup retain topic payload me cid f2 o2 hc hreg hacc hmid
+  refine ⟨h1, fun a b hab => ?_⟩
+  rw [q08_run_append]
+  exact h2 a b hab
+
 end Mochi.Broker
